@@ -350,6 +350,29 @@ def extract_function(fn):
     s, e, ob, cb = locate(stripped, fn["match"], fn["file"])
     sig_src = stripped[s:e]
     body = stripped[ob:cb + 1]
+    if fn.get("ctor"):
+        # constructor: the mem-initializer list  ': a(x), b(y)'  between the signature and the body becomes 'self->a = x; self->b = y;'
+        init = stripped[e:ob].strip()
+        if init.startswith(":"):
+            items, depth, cur = [], 0, ""
+            for ch in init[1:]:
+                if ch in "([{":
+                    depth += 1
+                elif ch in ")]}":
+                    depth -= 1
+                if ch == "," and depth == 0:
+                    items.append(cur.strip()); cur = ""
+                else:
+                    cur += ch
+            if cur.strip():
+                items.append(cur.strip())
+            assigns = []
+            for it in items:
+                m2 = re.match(r"^(\w+)\s*[\(\{](.*)[\)\}]$", it, re.S)
+                if not m2:
+                    raise ExtractionBroken("%s: cannot parse mem-initializer '%s'" % (fn["name"], it))
+                assigns.append("self->%s = CTOR_INIT(%s);" % (m2.group(1), m2.group(2).strip()))
+            body = "{\n  " + "\n  ".join(assigns) + "\n" + body[1:]
     line0 = stripped.count("\n", 0, s) + 1
     line1 = stripped.count("\n", 0, cb) + 1
     log = []
@@ -429,10 +452,15 @@ def extract_function(fn):
         log.append("ghost insert %s /%s/ x%d" % (where, pat, len(ms)))
 
     # loop contracts by ordinal
-    loops = fn.get("loops", {})
+    loops = dict(fn.get("loops", {}))
     lp = loop_positions(body)
     if "nloops" in fn and len(lp) != fn["nloops"]:
-        raise ExtractionBroken("%s: %d loops in body, contract file expects %d" % (fn["name"], len(lp), fn["nloops"]))
+        if len(lp) == 0:
+            # the code no longer has the loops the contract file annotates: verify the (now loop-free) body against the same function contract
+            loops = {}
+            log.append("NOTE: body has no loops any more (contract file annotates %d): loop contracts dropped, function contract unchanged" % fn["nloops"])
+        else:
+            raise ExtractionBroken("%s: %d loops in body, contract file expects %d" % (fn["name"], len(lp), fn["nloops"]))
     for ordn in sorted(loops, reverse=True):
         if ordn < 1 or ordn > len(lp):
             raise ExtractionBroken("%s: loop contract for loop #%d but body has %d loops" % (fn["name"], ordn, len(lp)))
